@@ -445,7 +445,7 @@ bool cell_wrong_with_both_mitm( const Cfg& cfg, const Case& c, bool lesc, int ma
 
 struct Judge
 {
-    std::uint64_t extra_evals = 0, folded = 0;
+    std::uint64_t extra_evals = 0, folded = 0, lesc_oob_not_advertised = 0;
 
     struct View { int io; bool oob, mitm; };
 
@@ -511,7 +511,15 @@ struct Judge
             fails.push_back( Fail{ mc::fmt( "response:io-capability:%s", cfg.io_name().c_str() ),
                 mc::fmt( "advertised IO capability %d, table 2.5 says %d (%s); ", o.rsp[ 1 ], l_io, io_names[ l_io ] ) + d } );
         }
-        if ( o.rsp[ 2 ] != ( l_oob ? 1 : 0 ) )
+        // OOB data flag.  Legacy pairing: the callback's 128 bit are the TK, "callback has data" = "OOB data present"
+        // (pinned for the legacy manager by pairing_tests.cpp).  LESC: OOB data would be the peer's (r, C); what the
+        // 128 bit of oob_authentication_callback<> mean there is not defined anywhere and the LESC OOB protocol is not
+        // implemented, so the weaker reading applies: a LESC response need not advertise the callback's data (counted),
+        // but the method has to fit the flag that was advertised (see below).  A set flag without data is wrong anyway.
+        const bool adv_oob = ( o.rsp[ 2 ] & 1 ) != 0;
+        if ( lesc && l_oob && !adv_oob )
+            ++lesc_oob_not_advertised;
+        else if ( o.rsp[ 2 ] != ( l_oob ? 1 : 0 ) )
         {
             fails.push_back( Fail{ mc::fmt( "response:oob-flag-%s:%s:%s", l_oob ? "missing" : "spurious", VARIANT_NAME, proto ),
                 mc::fmt( "OOB data flag %d in the response although the local OOB callback %s (callback invoked %d times); ",
@@ -541,7 +549,7 @@ struct Judge
         std::vector< View > views;
         {
             const int  ios[ 2 ]   = { l_io, o.rsp[ 1 ] <= 4 ? o.rsp[ 1 ] : l_io };
-            const bool oobs[ 2 ]  = { l_oob, ( o.rsp[ 2 ] & 1 ) != 0 };
+            const bool oobs[ 2 ]  = { lesc ? adv_oob : l_oob, adv_oob };
             const bool mitms[ 2 ] = { l_mitm, ( o.rsp[ 3 ] & 0x04 ) != 0 };
             for ( int a = 0; a != 2; ++a ) for ( int b = 0; b != 2; ++b ) for ( int m = 0; m != 2; ++m )
             {
@@ -560,7 +568,7 @@ struct Judge
         }
         const int expected = spec_method( lesc, best_view.io, best_view.oob, best_view.mitm, i_io, i_oob, i_mitm );
         const char* rule = expected == M_OOB ? "oob" : ( !best_view.mitm && !i_mitm ) ? "no-mitm" : "matrix";
-        if ( best == 0 && !( best_view.io == l_io && best_view.oob == l_oob && best_view.mitm == l_mitm ) ) ++folded;
+        if ( best == 0 && !( best_view.io == l_io && best_view.oob == ( lesc ? adv_oob : l_oob ) && best_view.mitm == l_mitm ) ) ++folded;
 
         if ( best != 0 )
             fails.push_back( Fail{ best_sig, mc::fmt( "Core spec (%s; local %s/oob %d/mitm %d, remote %s/oob %d/mitm %d) demands %s, SM selected %s; ",
@@ -584,8 +592,6 @@ const Cfg* cfg_by_name( const std::string& n )
     return nullptr;
 }
 
-const char* const COMPILE_SIG = "config:does-not-compile:keyboard-input+secure-connections";
-
 int replay( const mc::Args& a )
 {
     const mc::ReplayFile rf = mc::read_replay( a.replay );
@@ -595,14 +601,6 @@ int replay( const mc::Args& a )
     {
         char name[ 128 ] = { 0 }, hexreq[ 32 ] = { 0 };
         int oobrt = 0;
-        if ( sscanf( s.c_str(), "cfg=%127s compile-probe", name ) == 1 && s.find( "compile-probe" ) != std::string::npos )
-        {
-            const Cfg* cfg = cfg_by_name( name );
-            if ( !cfg ) { printf( "unknown configuration %s\n", name ); continue; }
-            printf( "  step: %s: l2cap_input() of the %s security manager %s for this configuration\n", name, VARIANT_NAME, cfg->l2cap_ok ? "compiles" : "does not compile" );
-            if ( !cfg->l2cap_ok && rf.sig == COMPILE_SIG ) { printf( "REPRODUCED %s\n", COMPILE_SIG ); rc = 1; }
-            continue;
-        }
         if ( sscanf( s.c_str(), "cfg=%127s oobrt=%d req=%31s", name, &oobrt, hexreq ) != 3 ) { printf( "unparsable step: %s\n", s.c_str() ); continue; }
         const Cfg* cfg = cfg_by_name( name );
         const std::vector< std::uint8_t > req = mc::unhex( hexreq );
@@ -657,12 +655,17 @@ int main( int argc, char** argv )
         ++rep.counters[ "configurations" ];
         if ( !cfg.l2cap_ok )
         {
-            ++rep.counters[ "configurations whose l2cap_input() does not compile (handlers called directly)" ];
-            rep.fail( COMPILE_SIG,
-                mc::fmt( "%s security manager with pairing_keyboard<> (configuration %s): l2cap_input() does not compile, because "
-                         "io_capabilities_matrix<>::sm_pairing_request_yes_no() calls pairing_keyboard<>::sm_pairing_request_yes_no(), which does not exist; "
-                         "the request handler was called directly to check the selection nevertheless", VARIANT_NAME, cfg.name().c_str() ),
-                { "cfg=" + cfg.name() + " compile-probe" } );
+            // a declaration that does not compile is not behaviour: no violation, but an excluded configuration.
+            // The selection code of such a configuration is exercised nevertheless (opcode handlers called directly).
+            ++rep.counters[ "configurations excluded from the l2cap_input() product (do not compile; handlers called directly)" ];
+            std::string& note = rep.notes[ "excluded configurations" ];
+            if ( note.empty() )
+                note = mc::fmt( "%s security manager: l2cap_input() does not compile with pairing_keyboard<> (io_capabilities_matrix<>::sm_pairing_request_yes_no() "
+                                "needs pairing_keyboard<>::sm_pairing_request_yes_no(), which does not exist); not a violation; the request handler is called directly "
+                                "for: ", VARIANT_NAME );
+            else
+                note += ", ";
+            note += cfg.name();
         }
         for ( int oobrt = cfg.oob ? 1 : 0; oobrt >= 0 && !cut; --oobrt )
             for ( int io = 0; io != 5 && !cut; ++io )
@@ -707,6 +710,7 @@ int main( int argc, char** argv )
     rep.counters[ "calls into the security manager" ] = calls;
     rep.counters[ "companion evaluations for classification" ] = judge.extra_evals;
     rep.counters[ "method deviations folded into a response deviation of the same case" ] = judge.folded;
+    rep.counters[ "LESC responses that do not advertise the OOB callback's data (accepted, method judged by the advertised flag)" ] = judge.lesc_oob_not_advertised;
     rep.exhaustive = !cut;
     if ( cut ) rep.notes[ "cut" ] = "deadline hit; product not completed";
     rep.notes[ "bound" ] = mc::fmt( "%s security manager: %d local configurations (of 24 per manager) x OOB callback result x remote IO 0..4 x OOB flag x %zu AuthReq values x %zu key sizes x %zu^2 key distributions",
